@@ -141,9 +141,16 @@ func (w *wrapOp) Next(ctx context.Context) ([]model.StepVector, error) {
 	mode := w.c.Mode
 	w.c.mu.Unlock()
 	if first && mode&1 != 0 {
-		if s, err := w.inner.Series(ctx); err == nil {
-			w.checkSeries(s)
+		s, err := w.inner.Series(ctx)
+		if err != nil {
+			// a consumer that asks for the series list first and is refused fails its query; going on
+			// to Next would hide the error (the loaders report it to their first caller only)
+			w.mu.Lock()
+			w.errored = true
+			w.mu.Unlock()
+			return nil, err
 		}
+		w.checkSeries(s)
 	}
 	r, err := w.inner.Next(ctx)
 	if err != nil {
